@@ -404,6 +404,192 @@ fn history(ctx: &Ctx) -> R {
     Ok(())
 }
 
+// ---------------------------------------------------------------------------------------------
+// Operator pipeline: a history of selection kernels over a pool of arrays of one generated type, each
+// result checked against the row-level model (the layouts one kernel produces are the next one's input)
+// ---------------------------------------------------------------------------------------------
+
+fn pipeline(ctx: &Ctx) -> R {
+    simcore::runner::set_component("select.pipeline");
+    let mut p = Profile::flat(gen::types_api::ALL_LEAVES);
+    p.leaves.retain(|l| *l != Leaf::Null);
+    p.dict = true;
+    p.strukt = true;
+    p.list = true;
+    p.large_list = true;
+    p.fsl = true;
+    p.map = true;
+    p.max_depth = 2;
+    p.small_dict_keys = false;
+    p.max_str_len = 14;
+    p.null_rate = *ctx.pick(&[3u64, 0, 8], "pipe.null_rate");
+    let dt = gen::types_api::gen_type(ctx, &p, 0);
+    ctx.note("type", serde_json::json!(gen::type_sig(&dt, false)));
+    // zero-width fixed-size types lose their length in several kernels (known finding): they get a component of
+    // their own so that the listed entry covers exactly them
+    fn zero_width(dt: &DataType) -> bool {
+        match dt {
+            DataType::FixedSizeBinary(0) | DataType::FixedSizeList(_, 0) => true,
+            DataType::List(f) | DataType::LargeList(f) | DataType::FixedSizeList(f, _) | DataType::Map(f, _) => zero_width(f.data_type()),
+            DataType::Struct(fs) => fs.iter().any(|f| zero_width(f.data_type())),
+            DataType::Dictionary(_, v) => zero_width(v),
+            _ => false,
+        }
+    }
+    let comp = if zero_width(&dt) { "select.zero_width" } else { "select" };
+    simcore::runner::set_component(&format!("{comp}.pipeline"));
+    let mut pool: Vec<(ArrayRef, Vec<V>)> = Vec::new();
+    let fresh = |ctx: &Ctx| -> (ArrayRef, Vec<V>) {
+        let n = ctx.size(40, "pipe.rows");
+        let vals: Vec<V> = (0..n).map(|_| gen::types_api::gen_value(ctx, &dt, true, &p, 0)).collect();
+        (simcore::runner::harness(|| gen::build(ctx, &dt, &vals, true)), vals)
+    };
+    pool.push(fresh(ctx));
+    ctx.nontrivial();
+    let steps = 3 + ctx.below(10, "pipe.steps");
+    for _ in 0..steps {
+        ctx.step();
+        let pick = |ctx: &Ctx, pool: &Vec<(ArrayRef, Vec<V>)>| ctx.below(pool.len(), "pipe.pick");
+        let op = ctx.draw(10, "pipe.op");
+        let name;
+        let (got, want): (ArrayRef, Vec<V>) = match op {
+            0 => {
+                name = "new";
+                fresh(ctx)
+            }
+            1 => {
+                name = "slice";
+                let (a, v) = &pool[pick(ctx, &pool)];
+                let o = ctx.below(v.len() + 1, "pipe.slice_off");
+                let l = ctx.below(v.len() - o + 1, "pipe.slice_len");
+                (a.slice(o, l), v[o..o + l].to_vec())
+            }
+            2 => {
+                name = "filter";
+                let (a, v) = &pool[pick(ctx, &pool)];
+                let (f, sel) = make_filter(ctx, v.len());
+                let r = match arrow_select::filter::filter(a.as_ref(), &f) {
+                    Ok(r) => r,
+                    Err(e) => bail_v!(ctx, "kernel_error", &format!("{comp}.filter/error"), "filter failed on {}: {e}", gen::type_sig(&dt, false)),
+                };
+                (r, v.iter().zip(&sel).filter(|(_, s)| **s).map(|(x, _)| x.clone()).collect())
+            }
+            3 => {
+                name = "take";
+                let (a, v) = &pool[pick(ctx, &pool)];
+                let (idx, model) = make_indices(ctx, v.len(), true);
+                let r = match arrow_select::take::take(a.as_ref(), idx.as_ref(), None) {
+                    Ok(r) => r,
+                    Err(e) => bail_v!(ctx, "kernel_error", &format!("{comp}.take/error"), "take failed on {}: {e}", gen::type_sig(&dt, false)),
+                };
+                (r, model.iter().map(|i| i.map(|i| v[i].clone()).unwrap_or(V::Null)).collect())
+            }
+            4 => {
+                name = "concat";
+                let k = 1 + ctx.below(3, "pipe.concat_n");
+                let parts: Vec<usize> = (0..k).map(|_| pick(ctx, &pool)).collect();
+                let arrs: Vec<&dyn Array> = parts.iter().map(|i| pool[*i].0.as_ref()).collect();
+                let r = match arrow_select::concat::concat(&arrs) {
+                    Ok(r) => r,
+                    Err(e) => bail_v!(ctx, "kernel_error", &format!("{comp}.concat/error"), "concat failed on {}: {e}", gen::type_sig(&dt, false)),
+                };
+                (r, parts.iter().flat_map(|i| pool[*i].1.iter().cloned()).collect())
+            }
+            5 | 6 => {
+                name = "interleave";
+                let k = 1 + ctx.below(3, "pipe.il_n");
+                let parts: Vec<usize> = (0..k).map(|_| pick(ctx, &pool)).collect();
+                let arrs: Vec<&dyn Array> = parts.iter().map(|i| pool[*i].0.as_ref()).collect();
+                let candidates: Vec<usize> = (0..k).filter(|j| !pool[parts[*j]].1.is_empty()).collect();
+                let n = if candidates.is_empty() { 0 } else { ctx.size(50, "pipe.il_len") };
+                let idx: Vec<(usize, usize)> = (0..n)
+                    .map(|_| {
+                        let j = candidates[ctx.below(candidates.len(), "pipe.il_arr")];
+                        (j, ctx.below(pool[parts[j]].1.len(), "pipe.il_row"))
+                    })
+                    .collect();
+                let r = match arrow_select::interleave::interleave(&arrs, &idx) {
+                    Ok(r) => r,
+                    Err(e) => bail_v!(ctx, "kernel_error", &format!("{comp}.interleave/error"), "interleave failed on {}: {e}", gen::type_sig(&dt, false)),
+                };
+                (r, idx.iter().map(|(j, r)| pool[parts[*j]].1[*r].clone()).collect())
+            }
+            7 => {
+                name = "zip";
+                // two inputs of equal length: an array and a slice / take of another brought to that length
+                let (a, va) = pool[pick(ctx, &pool)].clone();
+                let (b0, vb0) = pool[pick(ctx, &pool)].clone();
+                if vb0.is_empty() && !va.is_empty() {
+                    continue;
+                }
+                let idx: Vec<usize> = (0..va.len()).map(|i| i % vb0.len().max(1)).collect();
+                let ia = UInt32Array::from(idx.iter().map(|i| *i as u32).collect::<Vec<_>>());
+                let b = match arrow_select::take::take(b0.as_ref(), &ia, None) {
+                    Ok(r) => r,
+                    Err(e) => bail_v!(ctx, "kernel_error", &format!("{comp}.take/error"), "take failed on {}: {e}", gen::type_sig(&dt, false)),
+                };
+                let vb: Vec<V> = idx.iter().map(|i| vb0[*i].clone()).collect();
+                let (mask, sel) = make_filter(ctx, va.len());
+                let r = match arrow_select::zip::zip(&mask, &a, &b) {
+                    Ok(r) => r,
+                    Err(e) => bail_v!(ctx, "kernel_error", &format!("{comp}.zip/error"), "zip failed on {}: {e}", gen::type_sig(&dt, false)),
+                };
+                (r, (0..va.len()).map(|i| if sel[i] { va[i].clone() } else { vb[i].clone() }).collect())
+            }
+            8 => {
+                name = "nullif";
+                let (a, v) = &pool[pick(ctx, &pool)];
+                let (mask, sel) = make_filter(ctx, v.len());
+                let r = match arrow_select::nullif::nullif(a.as_ref(), &mask) {
+                    Ok(r) => r,
+                    // nullif documents the types it does not support
+                    Err(_) => continue,
+                };
+                (r, v.iter().zip(&sel).map(|(x, s)| if *s { V::Null } else { x.clone() }).collect())
+            }
+            _ => {
+                name = "shift";
+                let (a, v) = &pool[pick(ctx, &pool)];
+                let n = v.len() as i64;
+                let k = ctx.range(-n - 2, n + 2, "pipe.shift");
+                let r = match arrow_select::window::shift(a.as_ref(), k) {
+                    Ok(r) => r,
+                    Err(e) => bail_v!(ctx, "kernel_error", &format!("{comp}.shift/error"), "shift failed on {}: {e}", gen::type_sig(&dt, false)),
+                };
+                let want: Vec<V> = (0..n).map(|i| { let j = i - k; if j >= 0 && j < n { v[j as usize].clone() } else { V::Null } }).collect();
+                (r, want)
+            }
+        };
+        ctx.shape(name, want.len() as u64, pool.len() as u64);
+        ctx.probe(&format!("pipeline.{name}"));
+        // the result against the row-level definition
+        if got.data_type() != &dt {
+            bail_v!(ctx, "wrong_type", &format!("{comp}.{name}/type"), "{name} returned {} for input type {}", gen::type_sig(got.data_type(), false), gen::type_sig(&dt, false));
+        }
+        if let Err(e) = got.to_data().validate_full() {
+            bail_v!(ctx, "invalid_array", &format!("{comp}.{name}/validate"), "{name} returned an invalid array: {e}");
+        }
+        let rows = gen::extract(got.as_ref());
+        if rows != want {
+            let at = rows.iter().zip(&want).position(|(a, b)| a != b).unwrap_or(rows.len().min(want.len()));
+            bail_v!(ctx, "wrong_rows", &format!("{comp}.{name}/rows"), "{name} on {}: {} rows, expected {}; first difference at row {at}: got {} expected {}", gen::type_sig(&dt, false), rows.len(), want.len(), rows.get(at).map(gen::show).unwrap_or_default(), want.get(at).map(gen::show).unwrap_or_default());
+        }
+        if pool.len() < 6 {
+            pool.push((got, want));
+        } else {
+            let i = ctx.below(pool.len(), "pipe.replace");
+            pool[i] = (got, want);
+        }
+    }
+    Ok(())
+}
+
 fn main() {
-    simcore::main_with("C03", &[Scenario { name: "coalesce_history", runs_quick: 60_000, runs_thorough: 2_000_000, f: history }]);
+    simcore::main_with(
+        "C03",
+        &[
+            Scenario { name: "coalesce_history", runs_quick: 60_000, runs_thorough: 2_000_000, f: history },
+            Scenario { name: "pipeline", runs_quick: 150_000, runs_thorough: 5_000_000, f: pipeline },
+        ],
+    );
 }
